@@ -2,6 +2,7 @@
 emulator life cycle, fault scripts, namespace / request-log inspection, leftover-process detection."""
 import json
 import os
+import shutil
 import signal
 import subprocess
 import sys
@@ -12,6 +13,7 @@ from . import aux, build, slevel
 EMU = os.path.join(build.VERIF, "emu", "emu.py")
 PROVIDERS = {"dropbox": "dropbox", "yandex": "yandex-disk", "google": "google-drive"}
 CLOUD_ROOT = "/Backups/t"
+REAL_GPG = shutil.which("gpg") or "/usr/bin/gpg"
 PASS = "pass phrase \"quoted\" ü"
 
 
@@ -81,10 +83,10 @@ class Emu:
         return out
 
 
-def write_upload_config(sb, st, provider, max_groups=3, max_age=None):
+def write_upload_config(sb, st, provider, max_groups=3, max_age=None, passphrase=None):
     lines = ["backups:", "  - name: t", "    path: %s" % st, "    upload:", "      provider:", "        name: %s" % PROVIDERS[provider],
              "        client_id: a", "        client_secret: b", "        refresh_token: c", "      path: %s" % CLOUD_ROOT,
-             "      max_backup_groups: %d" % max_groups, "      encryption_passphrase: '%s'" % PASS.replace("'", "''")]
+             "      max_backup_groups: %d" % max_groups, "      encryption_passphrase: '%s'" % (passphrase if passphrase is not None else PASS).replace("'", "''")]
     if max_age:
         lines.append("      max_time_without_backups: %s" % max_age)
     with open(sb.cfg, "w") as f:
@@ -105,7 +107,7 @@ def warm_gpg(sb):
                    input=b"warm-up", stdout=subprocess.DEVNULL, stderr=subprocess.DEVNULL)
 
 
-def run_upload(sb, emu, now=None, timeout=90, extra_env=None, args=None, prefix=None):
+def run_upload(sb, emu, now=None, timeout=90, extra_env=None, args=None, prefix=None, exe=None):
     """returns dict(exit, out, seconds, timed_out, leftover=[cmdlines of processes of the session still alive])"""
     # a gpg that vsb terminated in an earlier run may have died between truncating and rewriting random_seed; the next gpg then prints a note
     # on stderr, which vsb reports as a failed upload.  That is gpg's state, not this run's fault: start every run from a warm home.
@@ -120,7 +122,7 @@ def run_upload(sb, emu, now=None, timeout=90, extra_env=None, args=None, prefix=
     if extra_env:
         env.update(extra_env)
     t0 = time.time()
-    p = subprocess.Popen((prefix or []) + [build.VSB, "-c", sb.cfg] + (args or ["upload"]), stdout=subprocess.PIPE, stderr=subprocess.STDOUT, env=env, cwd=sb.root,
+    p = subprocess.Popen((prefix or []) + [exe or build.VSB, "-c", sb.cfg] + (args or ["upload"]), stdout=subprocess.PIPE, stderr=subprocess.STDOUT, env=env, cwd=sb.root,
                          start_new_session=True)
     timed_out = False
     try:
@@ -155,14 +157,14 @@ def session_processes(sid):
     return out
 
 
-def decrypt_members(sb, blob):
+def decrypt_members(sb, blob, passphrase=None):
     """gpg --decrypt with the configured passphrase; returns {member name: bytes} of the tar or raises"""
     import io
     import tarfile
     gh = sb.path("gnupg-check")
     os.makedirs(gh, exist_ok=True)
     os.chmod(gh, 0o700)
-    p = subprocess.run(["gpg", "--homedir", gh, "--batch", "--quiet", "--pinentry-mode", "loopback", "--passphrase", PASS, "--decrypt"],
+    p = subprocess.run([REAL_GPG, "--homedir", gh, "--batch", "--quiet", "--pinentry-mode", "loopback", "--passphrase", passphrase if passphrase is not None else PASS, "--decrypt"],
                        input=blob, stdout=subprocess.PIPE, stderr=subprocess.PIPE)
     if p.returncode != 0:
         raise ValueError("gpg: %s" % p.stderr.decode("utf-8", "replace")[-200:])
